@@ -74,3 +74,17 @@ MUTANTS += [
     ("c02_pad_px_dy", "C02", "solver.py", "shift = np.exp(1j * (Lx * (xm + px * dx) + Ly * (ym + py * dy)))", "shift = np.exp(1j * (Lx * (xm + px * dx) + Ly * (ym + py * dx)))"),
     ("c02_delta_norm", "C02", "solver.py", "tfftq0 = np.ones((nly, nlx), dtype=np.complex128) / nxe / nye", "tfftq0 = np.ones((nly, nlx), dtype=np.complex128) / nx / ny"),
 ]
+
+MUTANTS += [
+    # ---- C03
+    ("c03_mean_flux_top_only", "C03", "solver.py", "    tfftq[:, 0, 0] = tfftq0[0, 0]  # conservation by design\n", "    tfftq[0, 0, 0] = tfftq0[0, 0]  # conservation by design\n"),
+    ("c03_half_Kz_i_only", "C03", "solver.py", "dz[i] * (0.5 / Kz[i] + 0.5 / Kz[i + 1])", "dz[i] * (0.5 / Kz[i])"),
+    ("c03_pad_swapped", "C03", "solver.py", 'q0 = np.pad(q0, ((py, py), (px, px)), mode="constant", constant_values=0.0)', 'q0 = np.pad(q0, ((px, px), (py, py)), mode="constant", constant_values=0.0)'),
+    ("c03_delta_norm_unpadded", "C03", "solver.py", "tfftq0 = np.ones((nly, nlx), dtype=np.complex128) / nxe / nye", "tfftq0 = np.ones((nly, nlx), dtype=np.complex128) / nx / ny"),
+    ("c03_crop_plus_one", "C02", "solver.py", "    conc = p[:, py : nye - py, px : nxe - px]\n", "    conc = np.roll(p, -1, axis=1)[:, py : nye - py, px : nxe - px]\n"),
+    ("c03_trapezoid_dz_prev", "C03", "solver.py", "tfftp00 - tfftq0[0, 0] * dz[i] * (0.5 / Kz[i] + 0.5 / Kz[i + 1])", "tfftp00 - tfftq0[0, 0] * dz[max(i - 1, 0)] * (0.5 / Kz[i] + 0.5 / Kz[i + 1])"),
+    ("c03_missing_last_layer", "C03", "solver.py", "        for i in range(nz - 1):\n\n            if i in levels:\n                tfftp[lvl, 0, 0] = tfftp00", "        for i in range(nz - 2):\n\n            if i in levels:\n                tfftp[lvl, 0, 0] = tfftp00"),
+    ("c03_analytic_mean_h", "C03", "solver.py", "        tfftp[:, 0, 0] = p000 - tfftq0[0, 0] * Kzinv * h\n", "        tfftp[:, 0, 0] = p000 - tfftq0[0, 0] * Kzinv * z[levels]\n"),
+    ("c03_factor_two", "C03", "solver.py", "dz[i] * (0.5 / Kz[i] + 0.5 / Kz[i + 1])", "dz[i] * (1.0 / Kz[i] + 1.0 / Kz[i + 1])"),
+    ("c03_halo_px_from_dy", "C03", "solver.py", "    px = int(halo / dx)\n", "    px = int(halo / dy)\n"),
+]
